@@ -48,6 +48,9 @@ type Plan struct {
 	// random hosts for the whole run; not part of the checked history
 	StaleReaders int
 	SlowRecoverMs int // RecoverFromSnapshot takes this long
+	// SlowReadUs: a ReadIndex client waits up to this long between the completion of
+	// ReadIndex and its ReadLocalNode / NAReadLocalNode call (the API allows any delay)
+	SlowReadUs int
 }
 
 type FaultKind int
@@ -64,10 +67,11 @@ const (
 	FPowerCutAll
 	FCloseDuringSnapshot
 	FIsolate // host A is cut off from every other host, both directions
+	FExport  // host A exports a snapshot (not recorded in its log store, must not compact its log)
 	numFaultKinds
 )
 
-var faultNames = [...]string{"partition", "heal", "powercut", "restart", "transfer", "snapshot", "stopreplica", "loss", "powercut-all", "close-during-snapshot", "isolate"}
+var faultNames = [...]string{"partition", "heal", "powercut", "restart", "transfer", "snapshot", "stopreplica", "loss", "powercut-all", "close-during-snapshot", "isolate", "export"}
 
 type Fault struct {
 	Kind    FaultKind
@@ -416,7 +420,20 @@ func RunPlan(p Plan) *Result {
 							continue
 						}
 						if r.Completed() {
-							v, err := nh.ReadLocalNode(rs, key)
+							if p.SlowReadUs > 0 {
+								time.Sleep(time.Duration(rnd.intn(p.SlowReadUs)) * time.Microsecond)
+							}
+							var v interface{}
+							var err error
+							if rnd.intn(3) == 0 {
+								// the no-allocation read path (statemachine.IExtended)
+								var b []byte
+								b, err = nh.NAReadLocalNode(rs, []byte(key))
+								v = string(b)
+								op.Mode = "readindex-na"
+							} else {
+								v, err = nh.ReadLocalNode(rs, key)
+							}
 							if err == nil {
 								op.Val, _ = v.(string)
 								op.Outcome = "completed"
@@ -565,6 +582,17 @@ func RunPlan(p Plan) *Result {
 						c.Net.SetDown(b.Addr, a.Addr, true)
 					}
 				}
+			case FExport:
+				hostMu.RLock()
+				if a.Up {
+					dir := fmt.Sprintf("/export-%d-%d", a.Idx, f.AfterMs)
+					_ = a.FS.MkdirAll(dir, 0o755)
+					if rs, err := a.NH.RequestSnapshot(shardID, dragonboat.SnapshotOption{Exported: true, ExportPath: dir}, time.Second); err == nil {
+						go func() { <-rs.ResultC(); rs.Release() }()
+						res.flag("snapshot-exported")
+					}
+				}
+				hostMu.RUnlock()
 			case FIsolate:
 				for _, o := range c.Hosts {
 					if o != a {
